@@ -102,6 +102,11 @@ func (tc *templateChecker) checkTemplate(node ast.Node) {
 		return
 	case *ast.DataRefNode:
 		tc.visitKey(node.Key)
+	case *ast.FunctionNode:
+		switch node.Name {
+		case "index", "isFirst", "isLast":
+			tc.checkLoopFunc(node)
+		}
 	case *ast.HeaderParamNode:
 		panic(fmt.Errorf("unexpected {@param ...} tag found"))
 	}
@@ -224,6 +229,22 @@ func (tc *templateChecker) visitKey(key string) {
 	}
 	panic(fmt.Errorf("data ref %q not found. params: %v, let variables: %v",
 		key, tc.params, letVars))
+}
+
+// checkLoopFunc ensures that index(), isFirst() and isLast() are given the
+// variable of an enclosing loop: nothing else binds the position they ask for.
+func (tc *templateChecker) checkLoopFunc(node *ast.FunctionNode) {
+	if len(node.Args) == 1 {
+		if ref, ok := node.Args[0].(*ast.DataRefNode); ok && len(ref.Access) == 0 {
+			for _, v := range tc.vars {
+				if v.name == ref.Key && v.kind == forVar {
+					return
+				}
+			}
+		}
+	}
+	panic(fmt.Errorf("function %s() takes the variable of an enclosing {foreach} or {for} loop, got: %s",
+		node.Name, node.String()))
 }
 
 // markParamUsed records that the template's param of the given name is used
